@@ -24,7 +24,7 @@ class PopArm(Opcode):
                             (processor.mem_u_get(address, 4)
                              if self.unaligned_allowed else processor.mem_a_get(address, 4))
                         )
-                        address += 4
+                        address = bits_add(address, 4, 32)
                 if bit_at(self.registers, 15):
                     if self.unaligned_allowed:
                         if substring(address, 1, 0) == 0b00:
